@@ -94,6 +94,9 @@ class Sim:
         self.sql_log = []         # full SQL of CTAS statements (for reference executions)
         self.thread_names = False
         self.hold = []            # strong refs a check may add on purpose (never by seams)
+        self.histories = []       # one list of model events per connection (kept after the proxy dies)
+        self.shadow = False       # C13: replay everything except releases on a second connection
+        self.shadow_tables = {}   # table -> (columns, rows) read from the shadow at close
         self.initial_threads_from_knob = os.environ.get("VERIF_DUCKDB_DEFAULT_POOL") != "1"
 
     # ---- operations
@@ -259,6 +262,10 @@ class SimConnection:
         self._pending_perm = []       # tables loaded and not yet permuted
         self._loading = None
         self.history = []             # model events for C13: (kind, table, extra)
+        SIM.histories.append(self.history)
+        self._shadow = None
+        if SIM.shadow and role == "run":
+            self._shadow = _real_connect(":memory:", config={"threads": 1})
         SIM.conns.append(weakref.ref(self))
 
     # -- probing (ledger); never logged
@@ -316,6 +323,12 @@ class SimConnection:
             self._flush_pending_perms()
         self._c.execute(query, *a, **k)
         self._hist(ev)
+        if self._shadow is not None and ev[0] not in ("DROP", "SELECT", "PROBE", "COPY", "QUERY", "DESCRIBE") \
+                and not (ev[0] == "UPDATE" and ev[2] == "repr"):
+            try:
+                self._shadow.execute(query, *a, **k)
+            except Exception as e:  # noqa: BLE001 - recorded, judged by the check
+                self._hist(("SHADOW-ERROR", ev[1], str(e)[:200]))
         if ev[0] == "CREATE" and SIM.permute_salt is not None:
             self._pending_perm.append(ev[1])
         elif ev[0] == "DROP" and ev[1] in self._pending_perm:
@@ -334,6 +347,8 @@ class SimConnection:
     def register(self, name, obj):
         tok = SIM.step("register", name)
         self._c.register(name, obj)
+        if self._shadow is not None:
+            self._shadow.register(name, obj)
         self._hist(("REGISTER", name, None))
         SIM.after(tok)
         return self
@@ -341,6 +356,8 @@ class SimConnection:
     def unregister(self, name):
         tok = SIM.step("unregister", name)
         self._c.unregister(name)
+        if self._shadow is not None:
+            self._shadow.unregister(name)
         self._hist(("UNREGISTER", name, None))
         SIM.after(tok)
         return self
@@ -354,6 +371,8 @@ class SimConnection:
     def create_function(self, *a, **k):
         tok = SIM.step("create_function", a[0] if a else "")
         r = self._c.create_function(*a, **k)
+        if self._shadow is not None:
+            self._shadow.create_function(*a, **k)
         SIM.after(tok)
         return r
 
@@ -386,7 +405,29 @@ class SimConnection:
                            SIM.op, SIM.k, "close", ""))
         self._closed_by_engine = True
         self._hist(("CLOSE", None, None))
+        if self._shadow is not None:
+            self._read_shadow()
         self._c.close()
+
+    def _read_shadow(self):
+        """Unscheduled reference: every table any statement produced, read from the connection
+        on which nothing was ever released or rewritten in place."""
+        from .ops import _cell
+
+        try:
+            for ev in self.history:
+                if ev[0] == "EXEC" and ev[1] not in SIM.shadow_tables:
+                    try:
+                        cur = self._shadow.execute(f'SELECT * FROM "{ev[1]}"')
+                        types = [str(d[1]) for d in cur.description]
+                        df = cur.fetchdf()
+                        rows = [tuple(_cell(x) for x in r) for r in df.astype(object).values.tolist()]
+                        SIM.shadow_tables[ev[1]] = (tuple(str(c) for c in df.columns), types, rows)
+                    except Exception as e:  # noqa: BLE001
+                        SIM.shadow_tables[ev[1]] = ("ERROR", str(e)[:200], None)
+        finally:
+            self._shadow.close()
+            self._shadow = None
 
     @property
     def description(self):
